@@ -149,6 +149,11 @@ def run_model(maxlen):
     return True, [l for l in p.stdout.split("\n") if l]
 
 
+def nf_types():
+    """the types of types() that implement NeverFailedTypedNode: repetitions with MIN = 0 (RepeatMin<_, 0>, RepeatMinMax<_, 0, MAX>)"""
+    return [(d, ty, n) for d, ty, n in types() if n[0] == "rep" and n[4] == 0 and d.split(":")[0] in ("min", "mm", "star", "nest")]
+
+
 def write_sources():
     tpl = open(os.path.join(HARNESS, "Cargo.toml.in")).read().replace("@REPO@", REPO)
     p = os.path.join(HARNESS, "Cargo.toml")
@@ -160,6 +165,11 @@ def write_sources():
             os.remove(lock)
     src = "{\n" + "".join('    run_one::<%s>("%s", &inputs, &mut out);\n' % (ty, d) for d, ty, _ in types()) + "}\n"
     p = os.path.join(HARNESS, "src", "types.rs")
+    if not os.path.exists(p) or open(p).read() != src:
+        with open(p, "w") as f:
+            f.write(src)
+    src = "{\n" + "".join('    nf_one::<%s>("%s", &inputs, &mut out);\n' % (ty, d) for d, ty, _ in nf_types()) + "}\n"
+    p = os.path.join(HARNESS, "src", "nf_types.rs")
     if not os.path.exists(p) or open(p).read() != src:
         with open(p, "w") as f:
             f.write(src)
@@ -276,3 +286,52 @@ def check_eq(ctx, maxlen):
     ctx.coverage["skipn_eq_bad"] = nbad
     ctx.oblige("raw combinators with SKIP in 0..3: == iff same {:?}, == implies same hash, != is not ==, clone equal, on %d values (%d renderings)" % (nv, ng),
                nbad == 0 and nv > 0)
+
+
+def check_never_failed(ctx, maxlen, prop_words="the skip is matched between iterations only, never at the start"):
+    """NeverFailedTypedNode::parse_with / check_with of every MIN = 0 repetition type (SKIP in 0..3, bounded skip nodes) against the
+    counting specification `parse` (the same oracle check_skip_counts uses for the fallible entry points)."""
+    write_sources()
+    sub = None if os.path.realpath(REPO) == "/repo" else "alt-" + sha(os.path.realpath(REPO))[:10]
+    ok, out = build.cargo_build(HARNESS, "debug", target_sub=sub)
+    ctx.oblige("cargo build harness/unitskip (never-failing entry points) against %s" % REPO, ok, "" if ok else out[-1500:])
+    if not ok:
+        ctx.violation("harness/unitskip no longer compiles (NeverFailedTypedNode on MIN = 0 repetitions)", {"log": out[-3000:]}, found_input=False)
+        return
+    p = subprocess.run([os.path.join(out, "unitskip"), str(maxlen), "nf"], capture_output=True, text=True, timeout=3000)
+    if p.returncode != 0:
+        ctx.violation("harness/unitskip nf crashed", {"rc": p.returncode, "stderr": p.stderr[-2000:]}, found_input=False)
+        return
+    nodes = {d: (ty, n) for d, ty, n in nf_types()}
+    n = bad = 0
+    reported = set()
+    for line in p.stdout.split("\n"):
+        if not line:
+            continue
+        d, hx, pf, cf = line.split("\t")
+        ty, node = nodes[d]
+        s = bytes.fromhex(hx).decode() if hx != "-" else ""
+        want = parse(node, s, 0)
+        wp = "P:%d=%s" % want
+        wc = "C:%d" % want[0]
+        n += 1
+        if want[0] > 0:
+            ctx.nontrivial.add(("skipn-nf", d, hx))
+        ctx.count("skipn_nf_kind=%s" % d.split(":")[0])
+        if pf != wp or cf != wc:
+            bad += 1
+            fam = d.split(":")[0] + ("/parse_with" if pf != wp else "/check_with")
+            if fam not in reported and len(reported) < 3:
+                reported.add(fam)
+                ctx.violation("never-failing entry point of %s on %r: parse_with %s, check_with %s; specification (%s) %s / %s"
+                              % (ty, s, pf[:100], cf, prop_words, wp[:100], wc),
+                              {"type": ty, "descriptor": d, "input": s, "input_hex": hx, "impl": [pf, cf], "spec": [wp, wc],
+                               "entry_points": "NeverFailedTypedNode::parse_with / check_with",
+                               "skip_nodes": {"Blank1": '" "? = RepMinMax<Str<" ">, Empty, 0, 0, 1>', "Blank2": '" "{0,2}'},
+                               "rerun": ".cache/target/debug/unitskip %d nf | grep -F '%s' | grep -F '%s'" % (maxlen, d, hx)})
+    ctx.evaluations += n
+    ctx.coverage["skipn_nf_types"] = len(nodes)
+    ctx.coverage["skipn_nf_cases"] = n
+    ctx.coverage["skipn_nf_mismatches"] = bad
+    ctx.oblige("NeverFailedTypedNode::parse_with / check_with of MIN = 0 repetitions (SKIP in 0..3) == counting specification on %d (type, input) pairs" % n,
+               bad == 0 and n > 0)
